@@ -14,18 +14,19 @@ import Tickit.Gen.EvLoop
   tables of the callbacks, clock), all fuel, or over all histories (`runOps cfg ops`), as stated.
   Callback behaviours are data in the state, so "whatever callbacks do" is part of the quantifier.
 
-  Proved for the tree as shipped *and* repaired: `queue_order_invariant`, `sorted_insert`,
+  Proved for the tree as first shipped *and* repaired: `queue_order_invariant`, `sorted_insert`,
   `never_early_shipped`/`never_early`, `order_shipped`/`order`, `cancel_exact`, `destroy_notifies_list`.
   Proved for the repaired timer loop: `no_due_timer_left`, `cancelled_never_runs`,
   `registered_in_callback_runs_in_order`.
-  Proved for the repaired source, across the iterations of every history (Proof/EvLoopOnce*.lean):
-  `invocation_count_is_per_watch`, `exactly_once` — the harness's per-slot count of FIRE invocations
-  (`SlotRec.fires`, incremented by `fireUser` together with the log entry) is at most 1 for a timer / deferred
-  callback, 0 while the watch is allocated — and then it is still queued —, and 1 once it is gone from a live
-  instance without a cancel having been asked for (`St.cancelReq`, a ghost the model's `doCancel` keeps).
-  Defects of the shipped tree: the `*_counterexample` theorems (kernel-checked runs of the model on the
-  minimal histories of corpus/C17; the same histories are replayed against the real library on
-  every check).  Statements not proved: the `def … : Prop` at the end (listed in engines.d/C17.json).
+  Proved for the repaired source (the text /repo has now), across the iterations of every history
+  (Proof/EvLoopOnce*.lean): `invocation_count_is_per_watch`, `exactly_once` — the harness's per-slot count of FIRE
+  invocations (`SlotRec.fires`, incremented by `fireUser` together with the log entry) is at most 1 for a timer /
+  deferred callback, 0 while the watch is allocated — and then it is still queued —, and 1 once it is gone from a live
+  instance without a cancel having been asked for (`St.cancelReq`, a ghost the model's `doCancel` keeps) — and for one
+  whole iteration (Proof/EvLoopOnceIter.lean): `exactly_once_iteration`.
+  Defects of the tree as first shipped: the `*_counterexample` theorems (kernel-checked runs of the model on the
+  minimal histories of corpus/C17; the same histories are replayed against the real library on every check); all are
+  repaired in /repo.  Statement not proved: `no_ub_full` at the end (engines.d/C17.json).
 -/
 namespace Tickit.Props.C17
 open Tickit Tickit.EvLoop
@@ -427,8 +428,8 @@ example : ((runOps .repaired [.act (.timer 0 0 0), .act (.timerAt 1 999 0 0), .a
 
 /-! ### statements of the property that are not proved (engines.d/C17.json: open_statements) -/
 
-/-- No undefined behaviour on valid usage under the repaired source (three use-after-free remain in the
-    shipped tree *and* after the proposed patches: see known/C17.json, known/C18.json). -/
+/-- No undefined behaviour on valid usage under the repaired source (every use-after-free found so far is repaired in
+    /repo: known/C17.json, known/C18.json list them as fixed; the statement for all histories is not proved). -/
 def no_ub_full : Prop :=
   ∀ (ops : List Op), (∀ w, (runOps .repaired ops).status ≠ .ub w)
 
